@@ -71,7 +71,7 @@ class World:
                 A.append(('azimuth', v))
             for v in (45.0, 100.0):
                 A.append(('tolerance', v))
-            for v in ('q33', round(dmax * 0.4, 3)):
+            for v in ('q33', round(dmax * 0.4, 3), round(dmax * 3, 3)):   # the last one exceeds every distance
                 A.append(('bandwidth', v))
             for v in ('compass', 'triangle'):
                 A.append(('directional_model', v))
